@@ -1,15 +1,27 @@
-"""Per-property configuration of the runtime-monitoring checks (read by vcheck.py)."""
+"""Per-property configuration of the runtime-monitoring checks (read by vcheck.py).
+
+Each props.d/CNN.py defines P = dict(harness=..., variants=..., level=..., technique=..., rule=..., floor=..., ...).
+Keys understood by vcheck.py:
+  harness        source file under harness/
+  variants       list of build variants, or dict(quick=[...], thorough=[...]); see VARIANTS in vcheck.py
+  level          evidence level (exploration | fault_enumeration | ...)
+  technique      a few words naming the deciding method (goes to MANIFEST.json)
+  rule           how cases are generated and what makes one non-trivial / distinct (goes to the evidence file)
+  floor          dict(quick=N, thorough=N): minimum distinct non-trivial cases, below which the run is inconclusive (exit 2)
+  counter_floor  dict(quick={counter: min}, thorough={...}): monitors that must have been reached
+  assumptions    list of strings
+  cxxflags/ldflags  extra flags for the harness translation unit
+  env            extra environment for harness processes
+  nosig          True: ASan must not install signal handlers (separate-process tests)
+  max_procs      cap on parallel harness processes
+  stall_s        watchdog: seconds without progress before a process is killed (default 300)
+  post           name of a module in oracle/ with judge(observations, cfg) -> (violations, counters)
+"""
+import os, glob, importlib.util
 
 PROPS = {}
-
-PROPS['C09'] = dict(
-    harness='c09_values.cpp',
-    variants=['asan'],
-    level='exploration',
-    technique='runtime monitoring: reference-model oracle (__int128 value semantics) over the complete boundary lattice of all 36 integer type pairs plus random 64-bit values, ASan/UBSan build',
-    rule='cases: (type A, value A, type B, value B) for MockNamedValue::equals in both directions, (stored type, value, getter) inside a fixture test, double (a, b, tolerance) triples and a cross-type kind table; '
-         'the four lattice sections are enumerated completely. Non-trivial = integer pair/getter value outside int range or straddling a sign boundary, double pair with inf/NaN or within 2x tolerance, cross-type pair of different kinds or memory buffers; '
-         'distinct by (types, values)',
-    floor=dict(quick=5000, thorough=50000),
-    assumptions=['LP64 (long = 64 bit)', 'NULL C strings in values are not judged', 'negative double tolerances are not judged'],
-)
+for _f in sorted(glob.glob(os.path.join(os.path.dirname(os.path.abspath(__file__)), 'props.d', 'C*.py'))):
+    _spec = importlib.util.spec_from_file_location('props_' + os.path.basename(_f)[:-3], _f)
+    _m = importlib.util.module_from_spec(_spec)
+    _spec.loader.exec_module(_m)
+    PROPS[os.path.basename(_f)[:-3]] = _m.P
